@@ -909,7 +909,6 @@ func runC16(t *testing.T, rng *rand.Rand, rec *sim.Rec, tier string, caseNo int)
 
 func init() {
 	register("C16", PropDef{
-		Bubble: true,
 		Cases: func(tier string) int {
 			if tier == "thorough" {
 				return 60000
@@ -918,19 +917,167 @@ func init() {
 			return 700
 		},
 		Run: func(t *testing.T, rng *rand.Rand, rec *sim.Rec, tier string, caseNo int) {
-			if caseNo%25 == 7 {
-				runSlowConnect(t, rng, rec, tier, caseNo)
+			if caseNo%100 == 33 || (tier == "thorough" && caseNo%1000 == 533) {
+				// operating-system sockets: a slow peer behind a bundled generator
+				runC16RealSockets(t, rng, rec, caseNo/100)
 
 				return
 			}
-			if caseNo%6 == 5 {
-				runC16RealClient(t, rng, rec, tier, caseNo/6)
+			inBubble(t, func(t *testing.T) {
+				if caseNo%25 == 7 {
+					runSlowConnect(t, rng, rec, tier, caseNo)
 
-				return
-			}
-			runC16(t, rng, rec, tier, caseNo)
+					return
+				}
+				if caseNo%6 == 5 {
+					runC16RealClient(t, rng, rec, tier, caseNo/6)
+
+					return
+				}
+				runC16(t, rng, rec, tier, caseNo)
+			})
 		},
 	})
+}
+
+// runC16RealSockets (operating-system TCP sockets on loopback, real time): the real client opens a
+// data connection through a real server whose relay sockets come from a bundled generator, writes
+// 64 KiB - 3 MiB, and closes at once. The peer reads slowly (small receive buffer, pauses). Every
+// byte the client's Write accepted reaches the peer, unchanged and in order, followed by a clean
+// end of stream - never a reset with bytes missing. (The simulated network has no kernel buffers
+// and no SO_LINGER; only this case sees what the relay's socket options do to queued bytes.)
+func runC16RealSockets(t *testing.T, rng *rand.Rand, rec *sim.Rec, caseNo int) {
+	srvLn, err := net.Listen("tcp4", "127.0.0.1:0")
+	if err != nil {
+		rec.FP("real/unavailable")
+
+		return
+	}
+	var gen turn.RelayAddressGenerator = &turn.RelayAddressGeneratorStatic{RelayAddress: net.IPv4(127, 0, 0, 1), Address: "127.0.0.1"}
+	genName := "static"
+	if caseNo%3 == 1 {
+		gen, genName = &turn.RelayAddressGeneratorNone{Address: "127.0.0.1"}, "none"
+	}
+	srv, err := turn.NewServer(turn.ServerConfig{
+		Realm: "verif.test",
+		AuthHandler: func(ra *turn.RequestAttributes) (string, []byte, bool) {
+			return ra.Username, wire.LongTermKey("alice", "verif.test", "pw-a"), ra.Username == "alice"
+		},
+		ListenerConfigs: []turn.ListenerConfig{{Listener: srvLn, RelayAddressGenerator: gen}},
+		LoggerFactory:   sim.NewLogSink(),
+	})
+	if err != nil {
+		_ = srvLn.Close()
+		rec.Inconclusive("real server: %v", err)
+
+		return
+	}
+	defer srv.Close() //nolint:errcheck
+	peerLn, err := net.Listen("tcp4", "127.0.0.1:0")
+	if err != nil {
+		rec.FP("real/unavailable")
+
+		return
+	}
+	defer peerLn.Close() //nolint:errcheck
+	total := pick(rng, []int{64 << 10, 1 << 20, 3 << 20})
+	pause := pick(rng, []time.Duration{0, time.Millisecond, 2 * time.Millisecond})
+	type result struct {
+		data []byte
+		err  error
+	}
+	resCh := make(chan result, 1)
+	go func() {
+		c, aErr := peerLn.Accept()
+		if aErr != nil {
+			resCh <- result{nil, aErr}
+
+			return
+		}
+		defer c.Close() //nolint:errcheck
+		if tc, ok := c.(*net.TCPConn); ok {
+			_ = tc.SetReadBuffer(16 * 1024)
+		}
+		var got bytes.Buffer
+		buf := make([]byte, 16*1024)
+		for {
+			_ = c.SetReadDeadline(time.Now().Add(60 * time.Second))
+			n, rErr := c.Read(buf)
+			got.Write(buf[:n])
+			if rErr != nil {
+				if rErr == io.EOF { //nolint:errorlint
+					rErr = nil
+				}
+				resCh <- result{got.Bytes(), rErr}
+
+				return
+			}
+			time.Sleep(pause)
+		}
+	}()
+	ctrl, err := net.Dial("tcp4", srvLn.Addr().String())
+	if err != nil {
+		rec.Inconclusive("real control connection: %v", err)
+
+		return
+	}
+	defer ctrl.Close() //nolint:errcheck
+	cl, err := turn.NewClient(&turn.ClientConfig{
+		Conn: turn.NewSTUNConn(ctrl), STUNServerAddr: srvLn.Addr().String(), TURNServerAddr: srvLn.Addr().String(),
+		Username: "alice", Password: "pw-a", Realm: "verif.test", LoggerFactory: sim.NewLogSink(),
+	})
+	if err != nil {
+		rec.Inconclusive("real client: %v", err)
+
+		return
+	}
+	defer cl.Close()
+	if err := cl.Listen(); err != nil {
+		rec.Inconclusive("real client: %v", err)
+
+		return
+	}
+	alloc, err := cl.AllocateTCP()
+	if err != nil {
+		rec.Inconclusive("real AllocateTCP: %v", err)
+
+		return
+	}
+	defer alloc.Close() //nolint:errcheck
+	dc, err := alloc.DialTCP("tcp4", nil, peerLn.Addr().(*net.TCPAddr))
+	if err != nil {
+		rec.Inconclusive("real DialTCP: %v", err)
+
+		return
+	}
+	payload := make([]byte, total)
+	prng := rand.New(rand.NewSource(rng.Int63()))
+	prng.Read(payload)
+	_ = dc.SetWriteDeadline(time.Now().Add(60 * time.Second))
+	n, wErr := dc.Write(payload)
+	_ = dc.Close()
+	if wErr != nil || n != total {
+		rec.Inconclusive("real data connection: Write returned %d of %d, %v", n, total, wErr)
+
+		return
+	}
+	select {
+	case res := <-resCh:
+		switch {
+		case len(res.data) < total:
+			rec.Violate("pipe-bytes", "real-socket/lost-on-close", "generator %s: the client wrote %d bytes and closed; the slow peer received %d, then %v", genName, total, len(res.data), res.err)
+		case !bytes.Equal(res.data, payload):
+			rec.Violate("pipe-bytes", "real-socket/altered", "generator %s: the peer received %d bytes that differ from the %d written", genName, len(res.data), total)
+		case res.err != nil:
+			rec.Violate("pipe-close", "real-socket/reset", "generator %s: the peer's connection ended with %v instead of a clean end of stream", genName, res.err)
+		}
+	case <-time.After(90 * time.Second):
+		rec.Inconclusive("real-socket peer saw no end of stream within 90 s of wall time")
+	}
+	rec.Ev("real-socket-pipes")
+	rec.EvN("real-socket-bytes-piped", total)
+	rec.FP("real-socket/gen=%s/total=%d/pause=%s", genName, total, pause)
+	rec.SetSample(map[string]any{"kind": "real-socket-slow-peer", "generator": genName, "bytes": total, "peer_pause": pause.String()})
 }
 
 // runC16RealClient: the real client's RFC 6062 API (AllocateTCP, DialTCP, AcceptTCP) end to end
